@@ -41,9 +41,9 @@ package bsc
 //@   trusted   -- storage lookup of the tracked chain's head height; read-only (that the canonical chain is the heaviest valid one is C27/C29's subject)
 //@   modifies nothing
 //@ func GetCanonicalHeader
-//@   trusted   -- storage lookup in the canonical index; read-only
+//@   trusted   -- storage lookup in the canonical index; read-only. No promise about the result: with no canonical entry at
+//@             -- that height it returns (nil, nil)
 //@   modifies nothing
-//@   ensures r1 == nil ==> r0 != nil
 
 // ---- C29: a header is stored only with a stored parent and a valid, in-window, correctly weighted seal -------
 //@ func (*Handler).SyncBlockHeader
